@@ -86,7 +86,7 @@ Verdict(o) ==
        c07total |-> PF(TRUE, o.outcome \in {"ok", "decode-error", "encode-error"}),
        c07idem  |-> PF(ok, o.idem),
        c07bytes |-> PF(o.nmut > 0, o.mutbad = <<>>),
-       c14 |-> PF(ok /\ o.gob # "na" /\ (nf \/ o.case.fam = "payload"), o.gob = "eq"),
+       c14 |-> PF(ok /\ o.gob # "na" /\ (nf \/ o.case.fam \in {"payload", "odd", "extcase"}), o.gob = "eq"),
        c15 |-> PF(ok /\ o.nptr > 0, bad15 = {}),
        \* C19: validin / validrt / validexp are the verdicts of the JSON-schema validator (instrument)
        \* on the source, on its re-encoding and on its expansion: "t" | "f" | "n" (not produced)
